@@ -11,7 +11,7 @@ import (
 func init() {
 	register(&propDef{
 		ID:          "C11",
-		Explanation: "Structural necessary conditions of TCP framing, decided on SSA for every caller of decodePacket that reads from a bufio.Reader (the per-connection reader goroutine): (a) the bytes handed to decodePacket are bytes.NewBuffer(b) where b is a buffer of exactly L bytes (fresh make([]byte, L) or b[:L]) that was completely filled from the connection's reader by a full-read idiom (io.ReadFull / io.ReadAtLeast(..., len(b))) on the path to the call, whose error edge leaves the loop; L is the result of the length function applied to the SAME reader, and that function only Peeks 4 bytes (non-consuming) and decodes the big-endian uint16 at offset 2; nothing else consumes the reader in the loop; the reader is created once per connection (outside the loop); (b) every error edge in the loop (length, full read, decodePacket) leaves the loop - none reaches the back edge, so nothing is delivered after the first undecodable message; (c) the reader goroutine defers close(doneCh), the handler blocks on doneCh/stopChan and defers conn.Close(); the reader is used by this goroutine only. (d) no-alias: if any decoder case keeps the input slice the buffer must be fresh per message; constant slicing of the message buffer needs a dominating length test; the reader has no other consumer in the reader goroutine, its creator or its sibling closures. Not decided: behaviour under real segmentation is implied by (a), not observed; other connections are unaffected only as far as no state but C12's is shared. Later additions: one helper level between the read loop and decodePacket is followed (the helper must return the decoding error); every path back to the loop head passes the full read; no deadline is armed on collector connections.",
+		Explanation: "Structural necessary conditions of TCP framing, decided on SSA for every caller of decodePacket that reads from a bufio.Reader (the per-connection reader goroutine): (a) the bytes handed to decodePacket are bytes.NewBuffer(b) where b is a buffer of exactly L bytes (fresh make([]byte, L) or b[:L]) that was completely filled from the connection's reader by a full-read idiom (io.ReadFull / io.ReadAtLeast(..., len(b))) on the path to the call, whose error edge leaves the loop; L is the result of the length function applied to the SAME reader, and that function only Peeks 4 bytes (non-consuming) and decodes the big-endian uint16 at offset 2; nothing else consumes the reader in the loop; the reader is created once per connection (outside the loop); (b) every error edge in the loop (length, full read, decodePacket) leaves the loop - none reaches the back edge, so nothing is delivered after the first undecodable message; (c) the reader goroutine defers close(doneCh), the handler blocks on doneCh/stopChan and defers conn.Close(); the reader is used by this goroutine only. (d) no-alias: if any decoder case keeps the input slice the buffer must be fresh per message; constant slicing of the message buffer needs a dominating length test; the reader has no other consumer in the reader goroutine, its creator or its sibling closures. Not decided: behaviour under real segmentation is implied by (a), not observed; other connections are unaffected only as far as no state but C12's is shared. Later additions: one helper level between the read loop and decodePacket is followed (the helper must return the decoding error); every path back to the loop head passes the full read; no deadline is armed on collector connections. Round-five additions: the length function refuses only lengths no valid message can have (below the 16-byte header); the per-domain template map shared by all connections is removed only when empty.",
 		Assume:      []string{"io.ReadFull fills the buffer or returns an error", "bufio.Reader.Peek does not consume"},
 		Run:         runC11,
 	})
